@@ -5,6 +5,6 @@ last=$(ls /verif/seeded | grep "^C$N-" | sed 's/.*-//' | sort | tail -1)
 next=$(python3 -c "import sys; print(chr(ord('$last')+1) if '$last' else 'a')")
 id="C$N-$next"
 mkdir -p /tmp/wt/logs
-echo "$id" > /tmp/wt/logs/S$N.id
-cd /verif && python3 tools/seedtest.py $id C$N /tmp/wt/S$N "$@" > /tmp/wt/logs/$id.log 2>&1
+echo "$id" > /tmp/wt/logs/${P:-S}$N.id
+cd /verif && python3 tools/seedtest.py $id C$N /tmp/wt/${P:-S}$N "$@" > /tmp/wt/logs/$id.log 2>&1
 tail -1 /tmp/wt/logs/$id.log
